@@ -380,6 +380,11 @@ def lemma_copy_node(ctx):
             continue
         mk = [e for e in p.trace if e.name == "mknodat"]
         md = [e for e in p.trace if e.name == "Path::metadata"]
+        # C06: copy_node runs on worker threads next to the walker's mkdir and other workers' open(O_CREAT):
+        # it must not change process-wide state (umask, working directory, environment), however briefly
+        glob = [e for e in p.trace if e.name == "process-state"]
+        (ctx.fail if glob else ctx.passed)("C06/C14: copy_node leaves process-wide state (umask, cwd, environment) alone: other threads create entries concurrently",
+                                           str(trace_names(p)))
         if any(is_errev(e) for e in p.trace):
             (ctx.passed if is_err(p.ret) else ctx.fail)("C04/C14: a failing stat/mknod makes copy_node fail", str(trace_names(p)))
             continue
